@@ -7,9 +7,9 @@ from .dm14 import Rig, READ, WRITE, ref_values, ref_bytes, CLI
 from .common import sym_payload
 
 
-def h_rw(ex, ops, seed_key=False, client='facade', direct=1, explore=False):
+def h_rw(ex, ops, seed_key=False, client='facade', direct=1, explore=False, cli=CLI):
     """ops: list of ['read', nbytes, size, signed, raw] or ['write', nbytes, size]; run back to back on one rig"""
-    rig = Rig(ex, seed_key=seed_key, client=client, explore=explore)
+    rig = Rig(ex, seed_key=seed_key, client=client, explore=explore, cli=cli)
     ptr = ex.fresh_int('ptr', 0, (1 << 32) - 1)     # the transactions of one history address the same objects
     for i, op in enumerate(ops):
         kind, nbytes, size = op[0], op[1], op[2]
@@ -54,7 +54,7 @@ def h_rw(ex, ops, seed_key=False, client='facade', direct=1, explore=False):
         if len(calls) >= 1:
             c = calls[0]
             ex.claim('proceed.arguments', sym_and(c['command'] == (READ if kind == 'read' else WRITE), c['address'] == ptr,
-                                                  c['pointer_type'] == direct, c['object_count'] == count, c['sa'] == CLI), info)
+                                                  c['pointer_type'] == direct, c['object_count'] == count, c['sa'] == cli), info)
         rig.idle_claims('idle', info)
         ex.claim('job_threads_alive', rig.sa.alive() and rig.sb.alive(), info)
         if rig.sa.node.notify_errors or rig.sb.node.notify_errors:
@@ -93,6 +93,9 @@ def jobs(tier):
     J([['write', 4, 2]], direct=0)
     J([['read', 4, 1, 0, 1]], client='query')
     J([['write', 9, 1]], client='query', seed_key=True)
+    for sk in (False, True):
+        J([['read', 4, 1, 0, 1], ['write', 9, 1]], seed_key=sk, cli=0)
+        J([['write', 2, 2], ['read', 20, 1, 0, 1]], seed_key=sk, cli=253)
     J([['read', 20, 1, 0, 1]], explore=True)
     J([['write', 20, 1]], explore=True)
     return out
